@@ -9,7 +9,8 @@
 //       namespace / range identifier of real seeded squares: verdict vs. model, and the property's own
 //       oracle: the requester's container afterwards is empty or equals the reference and verifies
 //   B3  served blocks: real Blockstore.Get output for every identifier must be accepted and fill the
-//       request with the reference data
+//       request with the reference data -- from the in-memory accessor and from a real store.Store in
+//       every representation a node has (recent cache, ODS+Q4 files, ODS only, Q4 pruned): store_test.go
 //   B2  behaviours (TLC counterexamples of the strict invariants, TLC simulation): replayed step by
 //       step with gates (wrapper Blocks gate CID()/UnmarshalFn, the fake exchange gates GetBlocks)
 //   +   seeded byte-level mutations of honest blocks (sampled complement)
@@ -666,6 +667,7 @@ func TestDriver(t *testing.T) {
 	}
 	w.runCases(cases)
 	w.servedBlocks()
+	w.servedFromStores()
 	var behs []behaviour
 	if p := os.Getenv("VERIF_BEHAVIOURS"); p != "" {
 		if err := vh.ReadJSON(p, &behs); err != nil {
